@@ -71,6 +71,14 @@ var c01FileCases = []faCase{
 		patch: "@@\nvar x identifier\n@@\n func f(..., x T, ...) {\n   ...\n-  use(x)\n+  use2(x)\n   ...\n }\n",
 		minus: "package p\n\n⟦func f(«d1:a S», «x:b» T) {\n\t«d2:pre()»\n\tuse(«x:b»)\n}⟧\n",
 		plus:  "package p\n\n⟦func f(«d1», «x» T) {\n\t«d2»\n\tuse2(«x»)\n}⟧\n"},
+	{name: "stmt-to-var-declaration",
+		patch: "@@\nvar x expression\n@@\n-y := foo(x)\n+var y = bar(x)\n",
+		minus: "package p\n\nfunc f() {\n\tpre()\n\t⟦y := foo(«x:1»)⟧\n\tuse(y)\n}\n\nfunc g() {\n\tif c {\n\t\t⟦y := foo(«x:a.b»)⟧\n\t\tuse(y)\n\t}\n}\n",
+		plus:  "package p\n\nfunc f() {\n\tpre()\n\t⟦var y = bar(«x»)⟧\n\tuse(y)\n}\n\nfunc g() {\n\tif c {\n\t\t⟦var y = bar(«x»)⟧\n\t\tuse(y)\n\t}\n}\n"},
+	{name: "expr-stmt-to-var-declaration",
+		patch: "@@\nvar x expression\n@@\n-foo(x)\n+var _ = bar(x)\n",
+		minus: "package p\n\nfunc f() {\n\t⟦foo(«x:1»)⟧\n}\n",
+		plus:  "package p\n\nfunc f() {\n\t⟦var _ = bar(«x»)⟧\n}\n"},
 	{name: "stmt-in-case-and-select",
 		patch: "@@\nvar x identifier\n@@\n-x.Lock()\n+lock(x)\n",
 		minus: "package p\n\nfunc f(c chan int) {\n\tswitch {\n\tcase true:\n\t\t⟦«x:mu».Lock()⟧\n\t}\n\tselect {\n\tcase <-c:\n\t\tpre()\n\t\t⟦«x:rw».Lock()⟧\n\t}\n}\n",
